@@ -136,4 +136,71 @@ theorem tables_known :
      known Gen.Sem.setPhase && known Gen.Sem.setError && known Gen.Sem.cancel && known Gen.Sem.cancelled &&
      known Gen.Sem.recoverWith) = true := by decide
 
+/-! ### round 8c: `enqueue`, `Track`, `Untrack`, `Recover` -/
+
+theorem upd_upd {α : Type} (f : Nat → α) (k : Nat) (v w : α) : upd (upd f k v) k w = upd f k w := by
+  funext x; by_cases h : x = k <;> simp [upd, h]
+
+/-- `op.SetError(err); op.Cancel()` is the model's `failOp` -/
+theorem setError_cancel (s : State) (i : Nat) :
+    cancelOp { s with ops := upd s.ops i { s.ops i with phase := .error } } i = failOp s i := by
+  simp [cancelOp, failOp, upd_upd, upd_same]
+
+theorem enqueueT_eq (cfg : Cfg) (s : State) (p : PinSpec) (typ : OpType) (ht : typ ≠ .remote) :
+    enqueueT Gen.Sem.enqueue cfg s p typ = some (enqueue cfg s p typ) := by
+  unfold enqueueT enqueue
+  cases typ with
+  | remote => exact absurd rfl ht
+  | pin =>
+    rcases h : trackNew s p .pin .queued with ⟨s1, o⟩
+    cases o with
+    | none => simp [h, Gen.Sem.enqueue, holdsLits, envEnq, execEnq, chanOf, roomFor, Ty.ofOp]
+    | some i =>
+      by_cases hr : s1.pinQ.length < cfg.cap <;>
+        simp [h, hr, Gen.Sem.enqueue, holdsLits, envEnq, execEnq, chanOf, roomFor, Ty.ofOp, setError_cancel]
+  | unpin =>
+    rcases h : trackNew s p .unpin .queued with ⟨s1, o⟩
+    cases o with
+    | none => simp [h, Gen.Sem.enqueue, holdsLits, envEnq, execEnq, chanOf, roomFor, Ty.ofOp]
+    | some i =>
+      by_cases hr : s1.unpinQ.length < cfg.cap <;>
+        simp [h, hr, Gen.Sem.enqueue, holdsLits, envEnq, execEnq, chanOf, roomFor, Ty.ofOp, setError_cancel]
+
+theorem trackT_core (cfg : Cfg) (s : State) (p : PinSpec) (e : Bool) :
+    (match firstRow Gen.Sem.track (envTrack p.kind (trackNew s p .remote .inProgress).2.isNone e) with
+     | some acts => execTrack cfg p acts s none
+     | none => none) =
+    some (match p.kind with
+      | .sharded => (s, .nil)
+      | .remote =>
+        match trackNew s p .remote .inProgress with
+        | (s1, none) => (s1, .nil)
+        | (s1, some i) => ({ s1 with calls := s1.calls ++ [{ op := i, kind := .unpin, sync := true, eff := false }] }, .nil)
+      | .here => enqueue cfg s p .pin) := by
+  cases hk : p.kind with
+  | sharded => simp [firstRow, holdsLits, envTrack, Gen.Sem.track, execTrack]
+  | here => simp [firstRow, holdsLits, envTrack, Gen.Sem.track, execTrack]
+  | remote =>
+    rcases h : trackNew s p .remote .inProgress with ⟨s1, o⟩
+    cases o <;> cases e <;> simp [h, firstRow, holdsLits, envTrack, Gen.Sem.track, execTrack]
+
+theorem trackT_eq (cfg : Cfg) (s : State) (p : PinSpec) (e : Bool) :
+    trackT Gen.Sem.track cfg s p e = some (track cfg s p) :=
+  trackT_core cfg _ p e
+
+theorem track_after_err :
+    (∀ o, runOp (trackAfter Gen.Sem.track false) o = { o with phase := .error, cancelled := true }) ∧
+    (trackAfter Gen.Sem.track false).contains .clean = false := ⟨fun _ => rfl, rfl⟩
+
+theorem track_after_ok :
+    (∀ o, runOp (trackAfter Gen.Sem.track true) o = { o with phase := .done, cancelled := true }) ∧
+    (trackAfter Gen.Sem.track true).contains .clean = true := ⟨fun _ => rfl, rfl⟩
+
+theorem recoverT_eq (cfg : Cfg) (s : State) (c : Nat) : recoverT Gen.Sem.recover cfg s c = some (recover cfg s c) := by
+  unfold recoverT recover statusOf
+  cases h : s.cur c <;> simp [firstRow, holdsLits, envFound, Gen.Sem.recover]
+
+theorem tables_known_c :
+    (known Gen.Sem.enqueue && known Gen.Sem.track && known Gen.Sem.untrack && known Gen.Sem.recover) = true := by decide
+
 end CV.C05.T
